@@ -293,6 +293,11 @@ func replayFile(file string) int {
 		return 2
 	}
 	fmt.Println(strings.Join(r.Trace, "\n"))
+	if os.Getenv("VERIF_POINTS") != "" {
+		for i, pt := range r.Points {
+			fmt.Printf("point %d: n=%d chosen=%d costmask=%b before=%d  [%s]\n", i, pt.N, pt.Chosen, pt.Cost, pt.CostBefore, pt.Desc)
+		}
+	}
 	for _, p := range r.Panics {
 		fmt.Println("PANIC:", p)
 	}
